@@ -473,6 +473,16 @@ pub fn replay(v: &Value) -> CaseResult {
     if v.get("kind").and_then(|k| k.as_str()) == Some("c15-futures-drop") {
         return futures_drop_repro();
     }
+    if v.get("kind").and_then(|k| k.as_str()) == Some("c15-own-layer") {
+        let case = OwnCase {
+            cfg: Cfg::from_json(v.get("cfg").unwrap_or(&Value::Null)).unwrap_or(Cfg::Ovl(vec![Cfg::Mem, Cfg::Mem])),
+            data: crate::hist::data_from_json(v.get("data").unwrap_or(&Value::Null)).unwrap_or(DataSpec { kind: 8, len: 3, seed: 0 }),
+            layer: v.get("layer").and_then(|x| x.as_u64()).unwrap_or(0) as u8,
+            kind: v.get("op").and_then(|x| x.as_u64()).unwrap_or(0) as u8,
+        };
+        let mut st = Stats::default();
+        return with_stdout_silenced(|| test_own(&case, &mut st, false));
+    }
     if v.get("kind").and_then(|k| k.as_str()) == Some("c15-walkrm") {
         let case = walkrm_from_json(v).ok_or_else(|| Failure { message: "unparsable c15-walkrm replay".into(), replay: v.clone() })?;
         let po = v.get("panics_only").and_then(|x| x.as_bool()).unwrap_or(false);
@@ -512,7 +522,120 @@ pub fn panic_part(ctx: &RunCtx) -> (Stats, Option<Failure>) {
     (stats, failure)
 }
 
-const RULE: &str = "typed C01/C09 histories vec(op,0..=28) on every stack available in both worlds (Mem, Phys, altroot, overlay incl. sub-path layers, nesting<=2, pre-populated layers) executed in lock-step on the sync stack, its async twin, and N further async twins whose leaf filesystems are wrapped in PendFS (every trait future and every read_dir stream item returns Pending 0..3 times per a generated plan; N=3 quick, 8 thorough); per call: same Ok/Err, same error class, equal values (walk results as multisets, async order must be parent-before-child); after every call identical full snapshots; read/seek scripts on async read handles compared call by call with the sync handles; create sessions held open and observed meanwhile; append sessions that overlap a second append session / a re-creation / a removal of the same file before they write (same resulting trees); tokio current-thread runtime; PLUS walk_dir streams (sync, async, async under a Pending plan) over generated trees with a directory removed after k items were pulled: the stream must terminate, yield no entry twice, yield every entry outside the removed directory, name only vanished entries in its error items and report each of them at most once, like the sync iterator; non-trivial = history with >=1 failing call and >=1 walk over >=2 nested directories, under a plan that returned Pending inside a read_dir future and inside a metadata future of that walk";
+const RULE: &str = "typed C01/C09 histories vec(op,0..=28) on every stack available in both worlds (Mem, Phys, altroot, overlay incl. sub-path layers, nesting<=2, pre-populated layers) executed in lock-step on the sync stack, its async twin, and N further async twins whose leaf filesystems are wrapped in PendFS (every trait future and every read_dir stream item returns Pending 0..3 times per a generated plan; N=3 quick, 8 thorough); per call: same Ok/Err, same error class, equal values (walk results as multisets, async order must be parent-before-child); after every call identical full snapshots; read/seek scripts on async read handles compared call by call with the sync handles; create sessions held open and observed meanwhile; append sessions that overlap a second append session / a re-creation / a removal of the same file before they write (same resulting trees); tokio current-thread runtime; PLUS transfers between an overlay and its OWN layers (copy_file / move_file / copy_dir / move_dir from the overlay into its upper layer - manual copy-up -, from its lowest layer into the overlay, into a second overlay instance over the same layers): same outcome, same overlay tree, same layer trees in both worlds; PLUS walk_dir streams (sync, async, async under a Pending plan) over generated trees with a directory removed after k items were pulled: the stream must terminate, yield no entry twice, yield every entry outside the removed directory, name only vanished entries in its error items and report each of them at most once, like the sync iterator; non-trivial = history with >=1 failing call and >=1 walk over >=2 nested directories, under a plan that returned Pending inside a read_dir future and inside a metadata future of that walk";
+
+// ---------------------------------------------------------------------------------------------
+// transfers between an overlay and its OWN layers (manual copy-up and the like)
+// ---------------------------------------------------------------------------------------------
+
+#[derive(Clone, Debug)]
+pub struct OwnCase {
+    pub cfg: Cfg,
+    pub data: DataSpec,
+    pub layer: u8,
+    pub kind: u8,
+}
+
+fn own_strategy() -> impl Strategy<Value = OwnCase> {
+    let cfgs = prop_oneof![
+        3 => Just(Cfg::Ovl(vec![Cfg::Mem, Cfg::Mem])),
+        2 => Just(Cfg::Ovl(vec![Cfg::Mem, Cfg::Mem, Cfg::Mem])),
+        2 => Just(Cfg::OvlSub(Box::new(Cfg::Mem), 2)),
+        1 => Just(Cfg::OvlSub(Box::new(Cfg::Mem), 3)),
+        1 => Just(Cfg::Ovl(vec![Cfg::Alt(Box::new(Cfg::Mem), 1), Cfg::Mem])),
+    ];
+    (cfgs, data_strategy(), any::<u8>(), 0u8..8).prop_map(|(cfg, data, layer, kind)| OwnCase { cfg, data, layer, kind })
+}
+
+fn own_json(c: &OwnCase) -> Value {
+    json!({"kind": "c15-own-layer", "cfg": c.cfg.to_json(), "data": crate::hist::data_to_json(&c.data), "layer": c.layer, "op": c.kind})
+}
+
+fn test_own(case: &OwnCase, st: &mut Stats, counting: bool) -> CaseResult {
+    let n = case.cfg.overlay_layers().max(2);
+    let li = (case.layer as usize) % n;
+    let bytes = make_bytes(&case.data);
+    let prepop: Prepop = vec![
+        (li, "/d/f".to_string(), Node::File(bytes.clone())),
+        (n - 1, "/d/low".to_string(), Node::File(std::sync::Arc::new(b"low".to_vec()))),
+        (0, "/d/up".to_string(), Node::File(std::sync::Arc::new(b"up".to_vec()))),
+        (n - 1, "/d/sub/deep".to_string(), Node::File(std::sync::Arc::new(b"deep".to_vec()))),
+    ];
+    let names = ["copy_file(overlay:/d/f -> upper layer:/d/f)", "copy_file(overlay:/d/f -> upper layer:/d/g)", "copy_file(lowest layer:/d/low -> overlay:/d/h)", "move_file(overlay:/d/f -> upper layer:/d/f2)", "copy_dir(overlay:/d -> upper layer:/e)", "copy_file(overlay:/d/f -> second overlay instance:/d/f)", "copy_file(overlay:/d/low -> upper layer:/d/low)", "move_dir(overlay:/d/sub -> upper layer:/d/sub2)"];
+    let what = names[case.kind as usize % names.len()];
+    let runtime = rt();
+    let res: Result<(), String> = runtime.block_on(async {
+        let s = build(&case.cfg, &prepop)?;
+        let a = abuild(&case.cfg, &prepop, None).await?;
+        if s.layers.len() != a.layers.len() || s.layers.is_empty() {
+            return Err("harness: layer roots unavailable".into());
+        }
+        let sync_out: Result<u64, String> = {
+            let o = |p: &str| at(&s.root, p).map_err(|e| e.to_string());
+            let up = |p: &str| at(&s.layers[0], p).map_err(|e| e.to_string());
+            let low = |p: &str| at(&s.layers[n - 1], p).map_err(|e| e.to_string());
+            let second = vfs::VfsPath::new(vfs::OverlayFS::new(&s.layers));
+            match case.kind % 8 {
+                0 => o("/d/f")?.copy_file(&up("/d/f")?).map(|_| 0).map_err(|e| e.to_string()),
+                1 => o("/d/f")?.copy_file(&up("/d/g")?).map(|_| 0).map_err(|e| e.to_string()),
+                2 => low("/d/low")?.copy_file(&o("/d/h")?).map(|_| 0).map_err(|e| e.to_string()),
+                3 => o("/d/f")?.move_file(&up("/d/f2")?).map(|_| 0).map_err(|e| e.to_string()),
+                4 => o("/d")?.copy_dir(&up("/e")?).map_err(|e| e.to_string()),
+                5 => o("/d/f")?.copy_file(&at(&second, "/d/f").map_err(|e| e.to_string())?).map(|_| 0).map_err(|e| e.to_string()),
+                6 => o("/d/low")?.copy_file(&up("/d/low")?).map(|_| 0).map_err(|e| e.to_string()),
+                _ => o("/d/sub")?.move_dir(&up("/d/sub2")?).map(|_| 0).map_err(|e| e.to_string()),
+            }
+        };
+        let async_out: Result<u64, String> = {
+            let o = |p: &str| aat(&a.root, p).map_err(|e| e.to_string());
+            let up = |p: &str| aat(&a.layers[0], p).map_err(|e| e.to_string());
+            let low = |p: &str| aat(&a.layers[n - 1], p).map_err(|e| e.to_string());
+            let second = vfs::async_vfs::AsyncVfsPath::new(vfs::async_vfs::AsyncOverlayFS::new(&a.layers));
+            match case.kind % 8 {
+                0 => o("/d/f")?.copy_file(&up("/d/f")?).await.map(|_| 0).map_err(|e| e.to_string()),
+                1 => o("/d/f")?.copy_file(&up("/d/g")?).await.map(|_| 0).map_err(|e| e.to_string()),
+                2 => low("/d/low")?.copy_file(&o("/d/h")?).await.map(|_| 0).map_err(|e| e.to_string()),
+                3 => o("/d/f")?.move_file(&up("/d/f2")?).await.map(|_| 0).map_err(|e| e.to_string()),
+                4 => o("/d")?.copy_dir(&up("/e")?).await.map_err(|e| e.to_string()),
+                5 => o("/d/f")?.copy_file(&aat(&second, "/d/f").map_err(|e| e.to_string())?).await.map(|_| 0).map_err(|e| e.to_string()),
+                6 => o("/d/low")?.copy_file(&up("/d/low")?).await.map(|_| 0).map_err(|e| e.to_string()),
+                _ => o("/d/sub")?.move_dir(&up("/d/sub2")?).await.map(|_| 0).map_err(|e| e.to_string()),
+            }
+        };
+        match (&sync_out, &async_out) {
+            (Ok(x), Ok(y)) if x == y => {}
+            (Err(_), Err(_)) => {}
+            _ => return Err(format!("{} (file in layer {}): sync {:?} but async {:?}", what, li, sync_out, async_out)),
+        }
+        if sync_out.is_err() && case.kind % 8 >= 4 {
+            // a failed directory transfer leaves listing-order-dependent partial effects
+            return Ok(());
+        }
+        let (so, ao) = (snapshot(&s.root), asnapshot(&a.root).await);
+        if so.tree != ao.tree {
+            return Err(format!("{} (file in layer {}), outcome {:?}: the async overlay shows a different tree than the sync one: {:?}", what, li, sync_out.as_ref().map_err(|e| e.as_str()), diff_trees(&so.tree, &ao.tree)));
+        }
+        for i in 0..s.layers.len() {
+            let (sl, al) = (snapshot(&s.layers[i]), asnapshot(&a.layers[i]).await);
+            if sl.tree != al.tree {
+                return Err(format!("{} (file in layer {}): layer {} of the async stack differs from the sync one: {:?}", what, li, i, diff_trees(&sl.tree, &al.tree)));
+            }
+        }
+        Ok(())
+    });
+    drop(runtime);
+    match res {
+        Err(m) => Err(Failure { message: format!("stack {} | {}", case.cfg.render(), m), replay: own_json(case) }),
+        Ok(()) => {
+            if counting {
+                st.label("own_layer_transfers");
+                st.label(&format!("own_layer:{}", what.split('(').next().unwrap_or("")));
+                st.nontrivial.insert(crate::util::fnv_str(&format!("{:?}", case)));
+            }
+            Ok(())
+        }
+    }
+}
 
 pub fn run(ctx: &RunCtx) -> i32 {
     let reg = crate::regress::run_for(&ctx.id, &replay);
@@ -528,6 +651,11 @@ pub fn run(ctx: &RunCtx) -> i32 {
         let (s2, f2) = walkrm_part(ctx, ctx.tier.pick(3000, 60_000), false);
         stats.merge(s2);
         failure = f2;
+    }
+    if failure.is_none() {
+        let (s3, f3) = with_stdout_silenced(|| run_sharded(ctx, "ownlayer", ctx.tier.pick(1500, 40_000), own_strategy, test_own));
+        stats.merge(s3);
+        failure = f3;
     }
     write_evidence(
         ctx,
